@@ -301,6 +301,14 @@ def execute(spec, world):
         if changed:
             mutated += 1
 
+        if st["op"] == "set" and (st.get("arg") or {}).get("bad") == "underflow" and \
+                r["outcome"] == "ok":
+            # a positive target 300 orders of magnitude below the range the property
+            # quantifies over was *accepted*: what the shape looks like then is not judged
+            # (only a refusal must leave it intact, below)
+            C["underflow_target_accepted"] += 1
+            break
+
         # in all cases: finite, not collapsed, same orientation sign, radius >= 0
         why = _sane(g1)
         orient1 = _orientation(g1)
@@ -379,6 +387,11 @@ def execute(spec, world):
             valid = True  # rounding radius 0 is a legal assignment
         if not valid:
             # an assignment that cannot be honoured raises ValueError, state intact
+            if r["outcome"] == "ok" and arg.get("bad") == "underflow":
+                # a positive target outside the range the property quantifies over: whether
+                # it is honoured is not judged - only a refusal must leave the shape intact
+                C["underflow_target_accepted"] += 1
+                break
             if r["outcome"] == "ok":
                 if cur is None:
                     # unreadable getter yet the setter returned: only the state is judged
